@@ -421,4 +421,10 @@ def reshapeSamples (samples : List (Nat × List Int)) (modes N : List Nat) (T : 
   let st := (order.zipIdx.map fun x => (x.2, x.1)).foldl (reshapeStep samples modes N.length T) {}
   st.out.map fun kv => (kv.1, transposeRect kv.2)
 
+/-- what `LocalEngine._run_program` collects from a circuit: subsystem ↦ outcomes in measurement
+order, when the `k`-th measurement returns the tag `k` -/
+def collectSamples (circ : List TCmd) : List (Nat × List Int) :=
+  ((circ.filter (·.meas)).zipIdx).foldl
+    (fun acc x => alSet acc (x.1.regs.getD 0 0) (alGet [] acc (x.1.regs.getD 0 0) ++ [(x.2 : Int)])) []
+
 end SFV.Tdm
